@@ -200,8 +200,7 @@ struct Runner {
   // oracle state (plain; one thread runs at a time)
   std::vector<int> cb_runs;
   std::vector<int> cb_registered;
-  std::vector<Future<long long>> chained;
-  std::vector<int> chained_cb;
+  std::vector<Future<long long>> chained;   // indexed by callback id (one slot per `t` op: no shared growth)
   bool set_returned = false;     // promise: set_value returned;  latch: every count_down returned (checked at the end)
   long long downs_called = 0;
 
@@ -282,8 +281,7 @@ struct Runner {
           return Read<T>::of(x) + 1000 + id;
         });
         vrt_event("ret reg");
-        chained.push_back(f2);
-        chained_cb.push_back(id);
+        chained[id] = std::move(f2);
         break;
       }
       case 'y': sched_yield(); break;
@@ -313,10 +311,11 @@ struct Runner {
       if (cb_registered[id] && cb_runs[id] != 1)
         vrt_event("ORACLE cb-count callback %zu ran %d times (registered once, value set)", id, cb_runs[id]);
     for (size_t k = 0; k < chained.size(); ++k) {
+      if (!chained[k].valid()) continue;
       if (!chained[k].ready()) {
-        vrt_event("ORACLE then-not-ready future returned by then() of callback %d not ready after everything finished", chained_cb[k]);
-      } else if (chained[k].get() != g_expect + 1000 + chained_cb[k]) {
-        vrt_event("ORACLE then-wrong-value chained future of callback %d holds %lld", chained_cb[k], chained[k].get());
+        vrt_event("ORACLE then-not-ready future returned by then() of callback %zu not ready after everything finished", k);
+      } else if (chained[k].get() != g_expect + 1000 + (long long)k) {
+        vrt_event("ORACLE then-wrong-value chained future of callback %zu holds %lld", k, chained[k].get());
       }
     }
   }
@@ -337,6 +336,7 @@ static void run_case(uint64_t seed, bool latch_mode, int latch_n, const std::str
     r.fut = promise.get_future();
     r.cb_runs.assign(ncb, 0);
     r.cb_registered.assign(ncb, 0);
+    r.chained.resize(ncb);
     auto* ctx = promise._context.get();
     vrt_name(&ctx->_futex, 4, "futex");
     vrt_name(&ctx->_head, 8, "head");
@@ -355,6 +355,7 @@ static void run_case(uint64_t seed, bool latch_mode, int latch_n, const std::str
     r.fut = latch.get_future();
     r.cb_runs.assign(ncb, 0);
     r.cb_registered.assign(ncb, 0);
+    r.chained.resize(ncb);
     g_expect = 0;
     auto* ctx = latch._promise._context.get();
     vrt_name(&ctx->_futex, 4, "futex");
